@@ -308,16 +308,80 @@ Lemma walk_sp : forall f1 f2 nd nd' indiff indiff' best st, node_rel nd nd' -> o
   let a := walk W lvs cs lv f1 f2 nd indiff best st in let b := walk W lvs' cs' lv' f1 f2 nd' indiff' best st in
   snd a = snd b /\ snd (fst a) = snd (fst b) /\ res_rel (fst (fst a)) (fst (fst b)).
 Proof.
-  induction f1 as [|f1 IH1]; induction f2 as [|f2 IH2]; intros nd nd' indiff indiff' best st Hnd Hind; cbv zeta;
-    try (cbn; split; [reflexivity|split; [reflexivity|exact I]]); cbn [walk];
+  assert (Hz : forall f1 nd nd' indiff indiff' best st,
+            let a := walk W lvs cs lv f1 0 nd indiff best st in let b := walk W lvs' cs' lv' f1 0 nd' indiff' best st in
+            snd a = snd b /\ snd (fst a) = snd (fst b) /\ res_rel (fst (fst a)) (fst (fst b))).
+  { intros f1 nd nd' indiff indiff' best st. destruct f1; cbn [walk fst snd res_rel]; split; [reflexivity|split; [reflexivity|exact I]|reflexivity|split; [reflexivity|exact I]]. }
+  induction f1 as [|f1 IH1]; induction f2 as [|f2 IH2]; intros nd nd' indiff indiff' best st Hnd Hind; try apply Hz; cbv zeta; cbn [walk];
     destruct (walk_step_sp nd nd' indiff indiff' best st Hnd Hind) as (S1 & S2 & S3); cbv zeta in S1, S2, S3;
     destruct (walk_step W lvs cs lv nd indiff best st) as [[s b] st1], (walk_step W lvs' cs' lv' nd' indiff' best st) as [[s' b'] st1'];
     cbn [fst snd] in S1, S2, S3; subst st1' b'; destruct s as [r|n i|n], s' as [r'|n' i'|n']; try contradiction; cbn [step_rel] in S3.
   - split; [reflexivity|split; [reflexivity|exact S3]].
   - destruct S3 as (A & B). exact (IH2 n n' i i' b st1 A B).
-  - cbn. split; [reflexivity|split; [reflexivity|exact I]].
+  - cbn [fst snd res_rel]. split; [reflexivity|split; [reflexivity|exact I]].
   - split; [reflexivity|split; [reflexivity|exact S3]].
   - destruct S3 as (A & B). exact (IH2 n n' i i' b st1 A B).
-  - assert (Hlen : length (n_rest n') = length (n_rest n)) by (destruct S3 as (_ & _ & _ & _ & _ & F); symmetry; exact (Forall2_length F)).
+  - assert (Hlen : length (n_rest n') = length (n_rest n)) by (destruct S3 as (_ & _ & _ & _ & _ & F); symmetry; exact (Forall2_len _ _ _ F)).
     rewrite Hlen. exact (IH1 (S (length (n_rest n))) n n' None None b st1 S3 I).
 Qed.
+
+Notation hrel := (heap_rel node_rel).
+
+Lemma main_loop_sp : forall fuel h h' iter best st, hrel h h' ->
+  main_loop W lvs cs lv fuel h iter best st = main_loop W lvs' cs' lv' fuel h' iter best st.
+Proof.
+  induction fuel as [|f IH]; intros h h' iter best st Hh; [reflexivity|]. cbn [main_loop].
+  pose proof (heap_pop_rel node_rel node_rel_ord h h' Hh) as Hp. destruct lv_same as (L1 & _ & _). rewrite L1.
+  destruct (heap_pop h) as [[nd h1]|], (heap_pop h') as [[nd' h1']|]; try contradiction; [|reflexivity]. destruct Hp as (Hnd & Hh1).
+  destruct (w_iter W <? iter); [reflexivity|].
+  pose proof Hnd as (E1 & E2 & E3 & E4 & E5 & Hr).
+  remember (n_rest nd) as R1 eqn:Q1. remember (n_rest nd') as R2 eqn:Q2. destruct Hr as [|r r' rest rest' Hrr Hrest].
+  - unfold solution_of_node. rewrite <- E1, <- E2, <- E5. reflexivity.
+  - rewrite <- E3, <- E5. destruct (best_at best _ <? n_pen nd); [apply IH; exact Hh1|].
+    assert (Hlen : length (r' :: rest') = length (r :: rest)) by (cbn [length]; rewrite (Forall2_len _ _ _ Hrest); reflexivity). rewrite Hlen.
+    destruct (walk_sp (S (length (r :: rest))) (S (length (r :: rest))) nd nd' None None best st Hnd I) as (W1 & W2 & W3). cbv zeta in W1, W2, W3.
+    destruct (walk W lvs cs lv _ _ nd None best st) as [[res b] st1], (walk W lvs' cs' lv' _ _ nd' None best st) as [[res' b'] st1'].
+    cbn [fst snd] in W1, W2, W3. subst st1' b'. destruct res as [n|l| |], res' as [n'|l'| |]; try contradiction; cbn [res_rel] in W3.
+    + apply IH. apply heap_push_rel; [exact node_rel_ord|exact Hh1|exact W3].
+    + apply IH. apply heap_extend_rel; [exact node_rel_ord|exact W3|exact Hh1].
+    + apply IH. exact Hh1.
+    + reflexivity.
+Qed.
+
+Lemma fos_sp st ws first : find_optimal_solution W lvs fm cs lv st ws first = find_optimal_solution W lvs' fm cs' lv' st ws first.
+Proof.
+  unfold find_optimal_solution. destruct lv_same as (L1 & L2 & _). destruct Hlv as (recs' & Elv & Hr).
+  assert (Hrecs : lv_recs lv' = recs') by (rewrite Elv; reflexivity). rewrite Hrecs, L1, L2.
+  assert (Hlen : length recs' = length (lv_recs lv)) by (symmetry; exact (Forall2_len _ _ _ Hr)). rewrite Hlen.
+  remember (lv_recs lv) as R1 eqn:Q1. destruct Hr as [|r r' rest rest' (sp & -> & Hsp) Hrest]; [reflexivity|]. cbn [set_sp tr_inv tr_ml tr_sp tr_len].
+  assert (Hgo : forall (ib : bool) (lll : N) (bcb : bool),
+            (let (st0, sols) := child_lines_solutions W lvs cs st (lv_idx lv) r [] 0 ws [TDec (if ib then WBreak 0 else WContinue) lll []]
+                                  (dt_upd 1 (fun s => mkSt (s_broken s) bcb (s_child s) (s_oepl s) (s_bar s)) PLeaf) 1 lll 0 in
+             main_loop W lvs cs lv fm (heap_extend (map (fun _ => mkNode ws [TDec (if ib then WBreak 0 else WContinue) lll (match last_opt' sols with Some k => k | None => [] end)] 1 rest
+                          (dt_upd 1 (fun s => mkSt (s_broken s) bcb (s_child s) (s_oepl s) (s_bar s)) PLeaf) (decision_penalty W (lv_type lv) r 0 ib lll)) sols) heap_empty) 0
+                       (repeat u64_max (length (r :: rest))) st0)
+            = (let (st0, sols) := child_lines_solutions W lvs' cs' st (lv_idx lv) (set_sp sp r) [] 0 ws [TDec (if ib then WBreak 0 else WContinue) lll []]
+                                  (dt_upd 1 (fun s => mkSt (s_broken s) bcb (s_child s) (s_oepl s) (s_bar s)) PLeaf) 1 lll 0 in
+               main_loop W lvs' cs' lv' fm (heap_extend (map (fun _ => mkNode ws [TDec (if ib then WBreak 0 else WContinue) lll (match last_opt' sols with Some k => k | None => [] end)] 1 rest'
+                          (dt_upd 1 (fun s => mkSt (s_broken s) bcb (s_child s) (s_oepl s) (s_bar s)) PLeaf) (decision_penalty W (lv_type lv) (set_sp sp r) 0 ib lll)) sols) heap_empty) 0
+                       (repeat u64_max (length (r :: rest))) st0)).
+  { intros ib lll bcb. rewrite <- cls_sp. destruct (child_lines_solutions W lvs cs st _ r _ _ _ _ _ _ _ _) as [st1 sols]. apply main_loop_sp.
+    apply heap_extend_rel; [exact node_rel_ord| |apply heap_empty_rel].
+    destruct (match last_opt' sols with Some k => k | None => [] end) as [|kk kr]; induction sols as [|k ks IHk]; cbn [map]; [constructor|constructor; [|exact IHk]|constructor|constructor; [|exact IHk]];
+      (split; [reflexivity|split; [reflexivity|split; [reflexivity|split; [reflexivity|split; [reflexivity|exact Hrest]]]]]). }
+  assert (Hsp' : tr_inv r <> MB -> sp = tr_sp r) by (intros Hn; destruct Hsp as [->|Hmb]; [reflexivity|contradiction]).
+  unfold MB in Hsp'.
+  destruct first as [|ll cb]; destruct (tr_inv r) as [[]|] eqn:Ei; unfold bid; cbn [negb andb]; try reflexivity;
+    try (rewrite (Hsp' ltac:(discriminate)));
+    first [exact (Hgo true _ true) | exact (Hgo false _ true) | exact (Hgo false _ cb)].
+Qed.
+End Sp.
+
+(* `solve` on related view lists *)
+Theorem solve_sp W lvs lvs' fm : Forall2 view_rel lvs lvs' ->
+  forall depth st lv lv' ws fd, view_rel lv lv' -> solve W lvs fm depth st lv ws fd = solve W lvs' fm depth st lv' ws fd.
+Proof.
+  intros Hl. induction depth as [|k IH]; intros st lv lv' ws fd Hv; [reflexivity|]. cbn [solve].
+  rewrite (fos_sp W lvs lvs' Hl fm (solve W lvs fm k) (solve W lvs' fm k) IH lv lv' Hv st ws fd). reflexivity.
+Qed.
+Print Assumptions solve_sp.
